@@ -31,6 +31,7 @@ var suitesByProp = map[string][]func(*runner, *rng){
 	"C20": {suiteConcurrency},
 	"C18": {suiteFaults},
 	"C03": {suiteTtml},
+	"C05": {suiteStl},
 }
 
 func readRepoFile(rel string) ([]byte, error) { return os.ReadFile(repoDir + "/" + rel) }
